@@ -42,3 +42,25 @@ s = re.sub(r'against the unmodified code\. \d+ were\nrepaired', 'against the unm
 s = re.sub(r'All \d+ patches and all \d+ seeded', 'All %d patches and all %d seeded' % (nm, ns), s)
 open('DESIGN.md', 'w').write(s)
 print('DESIGN.md refreshed: %d mutants, %d seeded, %d fixed, %d open' % (nm, ns, nfix, nopen))
+
+# ---- section 9: as-built rules from tools/checks.py
+import sys
+sys.path.insert(0, os.path.join(ROOT, 'tools'))
+import checks
+s = open('DESIGN.md').read()
+marker = '## 9. As built: the registered checks'
+if marker in s:
+    s = s[:s.index(marker)].rstrip('\n')
+    if s.endswith('---'): s = s[:-3].rstrip('\n')
+out = [marker + ' (generated from tools/checks.py)\n\nFor every claimed property: what one run is and what the oracle demands (`rule`), what runs as real\ncode and what is simulated, the assumptions, and the jobs (harness, mode, sanitizer flavour, run\nbudget quick / thorough; thorough is additionally wall-capped at 300 s per job).\n\n']
+for pid in sorted(checks.CHECKS):
+    c = checks.CHECKS[pid]
+    out.append('### %s\n\n' % pid)
+    out.append('* **Rule.** %s\n' % re.sub(r'\s+', ' ', c['rule']))
+    out.append('* **Real.** %s\n' % '; '.join(c['real']))
+    out.append('* **Simulated / stubbed.** %s\n' % '; '.join(c['stub']))
+    if c.get('assumptions'): out.append('* **Assumptions.** %s\n' % '; '.join(c['assumptions']))
+    jobs = ['`%s`%s [%s] %d / %d runs' % (j['harness'], (' mode ' + j['mode']) if j.get('mode') else '', j.get('flavour', 'asan'), j['runs']['quick'], j['runs']['thorough']) for j in c['jobs']]
+    out.append('* **Jobs.** %s\n\n' % '; '.join(jobs))
+open('DESIGN.md', 'w').write(s + '\n\n---\n\n' + ''.join(out))
+print('section 9 regenerated')
